@@ -65,15 +65,16 @@ fn main() {
     let (sims, only, props): (&[&str], Option<String>, &[&str]) = match sel.as_str() {
         "oracle" => (&["e2e", "rx"], None, &["C01", "C02", "C04", "C05"]),
         "oracle-c01" => (&["e2e"], Some("c01-".into()), &["C01"]),
-        "oracle-c02" => (&["e2e"], Some("c02-".into()), &["C02"]),
+        "oracle-c02" => (&["e2e", "rx"], Some("c02-".into()), &["C02"]),
         "oracle-c05" => (&["e2e", "rx"], Some("c05-".into()), &["C05"]),
         "oracle-c04" => (&["rx"], Some("c04-".into()), &["C04"]),
         "oracle-c10" => (&["e2e", "rx"], Some("c10-".into()), &[]),
         "oracle-c13" => (&["e2e", "rx"], Some("c13-".into()), &[]),
+        "oracle-c03" => (&["e2e", "rx"], Some("c03-".into()), &["C03"]),
         _ => (&[], None, &[]),
     };
     match sub.as_str() {
-        "gen" | "oracle" | "oracle-c01" | "oracle-c02" | "oracle-c04" | "oracle-c05" | "oracle-c10" | "oracle-c13" => {
+        "gen" | "oracle" | "oracle-c01" | "oracle-c02" | "oracle-c03" | "oracle-c04" | "oracle-c05" | "oracle-c10" | "oracle-c13" => {
             let t0 = std::time::Instant::now();
             let mut rng = Rng::new(seed ^ 0x7C95);
             let mut stats: BTreeMap<String, u64> = BTreeMap::new();
